@@ -1560,8 +1560,8 @@ impl Oracle for SenderOracle {
 /// holds when it is broadcast (a transaction that merely lost a race is not a violation), and a
 /// replacement for the same outpoints pays a strictly higher absolute fee and feerate (C06/C07).
 pub struct TxValidityOracle {
-	/// previous claim per (node, sorted outpoint set): (fee, weight)
-	prev: BTreeMap<(usize, Vec<bitcoin::OutPoint>), (u64, u64, bitcoin::Txid)>,
+	/// per node: claims broadcast so far (txid, fee, weight, inputs)
+	prev: BTreeMap<usize, Vec<(bitcoin::Txid, u64, u64, Vec<bitcoin::OutPoint>)>>,
 	pub check_rbf: bool,
 }
 impl TxValidityOracle {
@@ -1587,23 +1587,54 @@ impl Oracle for TxValidityOracle {
 						Ok(fee) => {
 							crate::runner::witness("broadcast-admitted");
 							if self.check_rbf && kind != "Sweep" {
-								let mut ops: Vec<bitcoin::OutPoint> = tx.input.iter().map(|x| x.previous_output).collect();
-								ops.sort();
+								let ops: Vec<bitcoin::OutPoint> = tx.input.iter().map(|x| x.previous_output).collect();
 								let w = tx.weight().to_wu();
 								let txid = tx.compute_txid();
-								if let Some((pf, pw, ptxid)) = self.prev.get(&(*node, ops.clone())) {
-									if *ptxid != txid {
-										// a replacement of the same claim: strictly higher fee and feerate
-										if *fee <= *pf || (*fee as u128) * (*pw as u128) <= (*pf as u128) * (w as u128) {
+								let list = self.prev.entry(*node).or_default();
+								if !list.iter().any(|p| p.0 == txid) {
+									// BIP-125 style: a transaction conflicting with one of the node's own earlier, still
+									// unconfirmed claims must pay a strictly higher absolute fee and feerate
+									for (ptxid, pf, pw, pops) in list.iter() {
+										if _w.chain.confirmed.contains_key(ptxid) {
+											continue;
+										}
+										let same_claim = pops.iter().filter(|o| ops.contains(o)).count();
+										if same_claim == 0 {
+											continue;
+										}
+										// only judge re-issues of the same claim (same set of channel outpoints; wallet inputs may differ)
+										let chan_ops = |v: &Vec<bitcoin::OutPoint>| -> Vec<bitcoin::OutPoint> {
+											let mut c: Vec<bitcoin::OutPoint> = v.iter().filter(|o| !_w.nodes.iter().any(|nd| {
+												use lightning::util::wallet_utils::WalletSourceSync;
+												nd.wallet.list_confirmed_utxos().map(|u| u.iter().any(|x| x.outpoint == **o)).unwrap_or(false)
+											})).cloned().collect();
+											c.sort();
+											c
+										};
+										if chan_ops(pops) != chan_ops(&ops) {
+											continue;
+										}
+										// A claim funded by wallet inputs is a CPFP child: its own feerate is not the package's, and
+										// coin selection may change its weight; only its absolute fee is judged (must not fall).
+										let wallet_funded = chan_ops(&ops).len() != ops.len() || chan_ops(pops).len() != pops.len();
+										let bad = if wallet_funded {
+											*fee < *pf
+										} else {
+											*fee <= *pf || (*fee as u128) * (*pw as u128) <= (*pf as u128) * (w as u128)
+										};
+										if bad {
 											return Err(Failure::new(
 												"rbf-monotonic",
-												format!("node {} re-issued a claim of {:?} with fee {} (weight {}) after fee {} (weight {})", node, ops.len(), fee, w, pf, pw),
+												format!(
+													"node {} re-issued a still unconfirmed claim with fee {} sat / weight {} after fee {} sat / weight {} (fees must rise monotonically until confirmation)",
+													node, fee, w, pf, pw
+												),
 											));
 										}
 										crate::runner::witness("rbf-bump-checked");
 									}
+									list.push((txid, *fee, w, ops));
 								}
-								self.prev.insert((*node, ops), (*fee, w, txid));
 							}
 						},
 						Err(Reject::LostRace(..)) | Err(Reject::AlreadyConfirmed) => {
